@@ -235,6 +235,37 @@ Proof.
   destruct ((start <=? end_) && (up_alignZ start align + size <=? end_)); split; congruence.
 Qed.
 
+(* a coarser alignment aligns further down *)
+Lemma down_align_coarser x a A : 0 < a -> 0 < A -> (a | A) -> down_alignZ x A <= down_alignZ x a.
+Proof.
+  intros Ha HA Hd. apply down_align_max; [assumption| |apply down_align_le; assumption].
+  eapply Z.divide_trans; [exact Hd|apply down_align_div; assumption].
+Qed.
+
+(* for sizes that are multiples of the alignment, prepare fits whenever allocate fits *)
+Lemma spec_prep_down_fits start end_ m size align :
+  valid_min_align m -> valid_layout size align -> (align | size) ->
+  spec_down start end_ m size align <> None -> spec_prep_down start end_ size align <> None.
+Proof.
+  intros [Hm2 _] [Ha2 [Hs _]] Hmul H. pose proof (pow2_pos _ Ha2) as Hap.
+  pose proof (pow2_max _ _ Ha2 Hm2) as HA2. pose proof (pow2_pos _ HA2) as HAp.
+  unfold spec_down in H. unfold spec_prep_down.
+  destruct (Z.leb_spec start end_); [|exfalso; apply H; reflexivity]. cbn [andb] in *.
+  destruct (Z.leb_spec start (down_alignZ (end_ - size) (Z.max align m))) as [Hfit|];
+    [|exfalso; apply H; reflexivity].
+  assert (Hc : down_alignZ (end_ - size) (Z.max align m) <= down_alignZ (end_ - size) align).
+  { apply down_align_coarser; [assumption|assumption|].
+    apply pow2_divide; [assumption|assumption|lia]. }
+  assert (He : down_alignZ (end_ - size) align = down_alignZ end_ align - size).
+  { destruct Hmul as [k Hk]. replace (end_ - size) with (end_ + (- k) * align) by lia.
+    unfold down_alignZ. rewrite Z.mod_add by lia. lia. }
+  destruct (Z.leb_spec (start + size) (down_alignZ end_ align)); [discriminate|lia].
+Qed.
+
+Lemma spec_prep_up_fits start end_ m size align :
+  spec_up start end_ m size align <> None -> spec_prep_up start end_ size align <> None.
+Proof. intros H Hn. apply H. apply (spec_prep_up_some_iff start end_ m size align). exact Hn. Qed.
+
 (* non-vacuity: the hypotheses are satisfiable by concrete, non-trivial ranges *)
 Example spec_up_example :
   spec_up 4104 8192 8 13 32 = Some (4128, 4144) /\ spec_down 4096 8188 4 13 32 = Some 8160.
